@@ -207,6 +207,24 @@ def run(cx, tier='quick'):
                     rep.ok('DET-PROFILE', '%s|%s!(%s)' % (f.qname, ev.name, (ev.mac.get('text') or '')[:40].replace(' ', '')))
             if ev.kind == 'macro' and ev.name == 'cfg' and 'debug_assertions' in (ev.mac.get('text') or ''):
                 rep.bad('DET-PROFILE', f.qname, 'cfg!(debug_assertions)', 'a branch on cfg!(debug_assertions): the expansion depends on the build profile', f.file, ev.line)
+    # ... and no integer arithmetic that can overflow: with overflow checks (dev profile) it panics, without (release) it wraps and
+    # the expansion goes on.  The proof obligations are those of C17's census (R7 idioms); re-used, not re-implemented.
+    from . import c17 as _c17
+    from ..callgraph import CallGraph as _CG
+    from ..metafacts import MetaFacts as _MF
+    _cg = _CG(cx)
+    _dis = _c17.Discharger(cx, _cg, _MF(cx, _cg))
+    for s_ in _c17.census(cx, list(cx.crate.fns)):
+        if s_.kind != 'arith':
+            continue
+        r_ = _dis.discharge(s_)
+        inst_ = 'arith=%s' % s_.what
+        if r_:
+            rep.ok('DET-PROFILE', '%s|%s' % (s_.where, inst_), {'file': s_.fw.fn.file, 'line': s_.ev.line, 'discharged_by': r_[0]})
+        else:
+            rep.bad('DET-PROFILE', s_.where, inst_,
+                    'integer arithmetic `%s` with no proof that it cannot overflow: a macro built with overflow checks panics here, one built without wraps and produces output' % s_.what,
+                    s_.fw.fn.file, s_.ev.line)
     rep.floor('DET-PROFILE', 20, '(30 debug_assert! sites today)')
     # statics declared inside function bodies
     for f in cx.crate.fns:
